@@ -369,6 +369,9 @@ func (p *Parser) parseHexString() (core.Object, error) {
 		if p.pos >= len(p.data) || p.data[p.pos] == '>' {
 			// Odd number of digits - assume trailing 0
 			result.WriteByte(hexValue(c) << 4)
+			if p.pos < len(p.data) {
+				p.pos++ // consume the closing '>'
+			}
 			break
 		}
 
@@ -378,6 +381,9 @@ func (p *Parser) parseHexString() (core.Object, error) {
 			p.skipWhitespace()
 			if p.pos >= len(p.data) || p.data[p.pos] == '>' {
 				result.WriteByte(hexValue(c) << 4)
+				if p.pos < len(p.data) {
+					p.pos++ // consume the closing '>'
+				}
 				break
 			}
 			c2 = p.data[p.pos]
